@@ -27,7 +27,9 @@ def sh(cmd, **kw):
 def main():
     rows = []
     for seed_dir in sys.argv[1:]:
-        for d in sorted(pathlib.Path(seed_dir, "_seed").glob("C*_*")):
+        # /tmp/seed-N (a sub-agent's worktree) or an already imported /verif/seeded/<id> directory (re-confirmation against the current HEAD)
+        dirs = [pathlib.Path(seed_dir)] if (pathlib.Path(seed_dir) / "patch.diff").exists() else sorted(pathlib.Path(seed_dir, "_seed").glob("C*_*"))
+        for d in dirs:
             if not (d / "patch.diff").exists() or not (d / "demo.py").exists():
                 rows.append((d.name, "incomplete"))
                 continue
@@ -51,8 +53,9 @@ def main():
                 if ok:
                     dest = VERIF / "seeded" / d.name
                     dest.mkdir(parents=True, exist_ok=True)
-                    shutil.copy(d / "patch.diff", dest / "patch.diff")
-                    shutil.copy(d / "demo.py", dest / "demo.py")
+                    if dest.resolve() != d.resolve():
+                        shutil.copy(d / "patch.diff", dest / "patch.diff")
+                        shutil.copy(d / "demo.py", dest / "demo.py")
                     meta["confirmed"] = {"demo_on_clean_tree": clean.stdout.strip().splitlines()[-1][:300] if clean.stdout.strip() else "",
                                          "demo_with_change": broken.stdout.strip().splitlines()[-1][:500] if broken.stdout.strip() else "", "pinned_tests_with_change": tests,
                                          "repo_head": sh(f"git -C {REPO} rev-parse --short HEAD").stdout.strip()}
